@@ -12,6 +12,7 @@ import (
 	"github.com/hknutzen/Netspoc-Approve/go/pkg/mytime"
 	"github.com/hknutzen/Netspoc-Approve/go/pkg/program"
 	"github.com/hknutzen/Netspoc-Approve/go/pkg/status"
+	"github.com/hknutzen/Netspoc-Approve/go/pkg/verifhook"
 	"github.com/spf13/pflag"
 )
 
@@ -80,6 +81,7 @@ func Main() int {
 	if err != nil {
 		return abort("%v", err)
 	}
+	verifhook.Gate("after-lock")
 	hLog, err := openHistoryLog(cfg, devName)
 	if err != nil {
 		return abort("can't %v", err)
@@ -120,6 +122,7 @@ func Main() int {
 		logHistory(hLog, "RES:", line)
 	}
 
+	verifhook.Gate("before-status")
 	// Update status file.
 	if isCompare {
 		status.SetCompare(cfg, devName, policy, changed || errors)
@@ -136,6 +139,7 @@ func Main() int {
 	}
 
 	logHistory(hLog, "END:", okMsg)
+	verifhook.Gate("before-exit")
 
 	if failed {
 		return 1
